@@ -20,6 +20,11 @@ Tie, re-established on the current /repo tree on every run:
  (c) the hypotheses of c16_rho_exact on the real quadrature coefficients: C^T q = I for the collocation matrix
      rebuilt from basis evaluations, and sum_l q_l S(v_l) = sum_j I_j c_j for random splines S, under
      64 nc eps cond(C) scale; polynomials up to the spline degree are integrated to the same bound.
+     The composed theorems (c16_rho_is_integral_of_interpolant, c16_rho_exact_polynomial, c16_rho_const_*) speak of the
+     weights of the C09 model: the finder's real coefficients are compared with the exact weights ip_quadrature returns
+     on the finder's own v space (binary64 knots / Greville points read as rationals) under the same bound; the exact
+     weights integrate constants to ncells*dx exactly (uniform-cubic path) and, on the general path over the same break
+     points, every v^d with d <= degree to (b^(d+1) - a^(d+1))/(d+1) exactly.
  (d) a sample of (a) is re-evaluated inside Coq (vm_compute on Qc).
 """
 import json
@@ -251,6 +256,10 @@ def mpi_case(c):
             out['degree'] = int(bs.degree)
             out['periodic'] = bool(bs.periodic)
             out['vlims'] = (float(bs.breaks[0]), float(bs.breaks[-1]))
+            # the v space as the C08 / C09 model sees it (BSplines.knots is the 4-vector [xmin, xmax, dx, ncells] on the uniform cubic path)
+            out['vknots'] = [float(x) for x in bs.knots]
+            out['vcubic'] = bool(bs.cubic_uniform)
+            out['vgreville'] = [float(x) for x in bs.greville]
         return out
 
     saved = ps.get_perturbed_rho
@@ -547,6 +556,60 @@ def run():
                 chk.violation('poisson_solver.DensityFinder:not-exact-on-spline-space', 'npts=%r: sum q_l S(v_l) = %r but sum I_j c_j = %r (bound %.3g)' % (npts, lhs, rhs, b2),
                               {'kind': 'impl', 'coeffs': cc.tolist()})
                 break
+        # the weights are those of the C09 model on the finder's own v space (hypothesis of c16_rho_is_integral_of_interpolant /
+        # c16_rho_exact_polynomial: w = ip_quadrature): exact rational weights from the binary64 knots and Greville points
+        qline = 'ip.quad %d 0 %d | %s | %s' % (deg, 1 if info['vcubic'] else 0, ' '.join(qstr(qlift.frac_of_float(x)) for x in info['vknots']),
+                                               ' '.join(qstr(qlift.frac_of_float(x)) for x in info['vgreville']))
+        mans = core.model([qline])[0]
+        chk.count(('quad-model', npts), stratum='quadrature-weights-vs-C09-model:%s' % ('uniform-cubic' if info['vcubic'] else 'general'),
+                  sample={'npts': list(npts), 'nbasis': nb, 'cubic_uniform': info['vcubic']})
+        if not mans.startswith('ok '):
+            chk.violation('density:model-quadrature', 'npts=%r: the C09 model ip_quadrature answers %s on the v space of the finder' % (npts, mans[:80]),
+                          {'kind': 'correspondence', 'theorem': 'c16_rho_is_integral_of_interpolant'}, no_input=True)
+        else:
+            mw = [qparse(t) for t in mans.split()[1:]]
+            bw = 64 * nb * EPS * cond * float(np.abs(q).max())
+            dw = max(abs(qlift.frac_of_float(x) - y) for x, y in zip(q, mw)) if len(mw) == nb else float('inf')
+            quad_rel = max(quad_rel, float(dw) / bw)
+            if len(mw) != nb or dw > bw:
+                chk.violation('spline_interpolators.get_quadrature_coefficients:weights-vs-model', 'npts=%r: quadrature coefficients differ from the exact weights of the model by %.3g (bound %.3g)' % (npts, float(dw), bw),
+                              {'kind': 'impl', 'npts': list(npts)})
+            else:
+                # with the model's exact weights (every double read as the rational it is):
+                vq = [qlift.frac_of_float(x) for x in info['vgreville']]
+                kq = [qlift.frac_of_float(x) for x in info['vknots']]
+                if info['vcubic']:
+                    # uniform-cubic path, c16_rho_const_cubic: data constant in v integrate to the constant times ncells*dx, exactly
+                    lo, hi = kq[0], kq[0] + int(kq[3]) * kq[2]
+                    dmax = 0
+                else:
+                    lo, hi = kq[deg], kq[len(kq) - 1 - deg]
+                    dmax = deg
+                for d in range(dmax + 1):
+                    lhs = sum(w_ * x ** d for w_, x in zip(mw, vq))
+                    rhs = (hi ** (d + 1) - lo ** (d + 1)) / (d + 1)
+                    if lhs != rhs:
+                        chk.violation('density:model-polynomial-exactness', 'npts=%r: model weights integrate v^%d to %s, exact %s' % (npts, d, lhs, rhs),
+                                      {'kind': 'correspondence', 'theorem': 'c16_rho_exact_polynomial / c16_rho_const_cubic', 'degree': d}, no_input=True)
+                # c16_rho_exact_polynomial through the extracted model: the GENERAL path on the same break points (clamped knot vector with
+                # repeated end knots), the same (binary64, hence not exactly Greville) interpolation points: v^d, d <= degree, exactly
+                br = [kq[0] + i * kq[2] for i in range(int(kq[3]) + 1)] if info['vcubic'] else None
+                if br is not None:
+                    gk = [br[0]] * deg + br + [br[-1]] * deg
+                    xs2 = [min(max(x, br[0]), br[-1]) for x in vq]
+                    g2 = core.model(['ip.quad %d 0 0 | %s | %s' % (deg, ' '.join(qstr(x) for x in gk), ' '.join(qstr(x) for x in xs2))])[0]
+                    chk.count(('quad-model-general', npts), stratum='polynomial-exactness-through-model:general-path', sample={'npts': list(npts), 'degree': deg})
+                    if not g2.startswith('ok '):
+                        chk.violation('density:model-quadrature', 'npts=%r: ip_quadrature (general path) answers %s' % (npts, g2[:80]),
+                                      {'kind': 'correspondence', 'theorem': 'c16_rho_exact_polynomial'}, no_input=True)
+                    else:
+                        w2 = [qparse(t) for t in g2.split()[1:]]
+                        for d in range(deg + 1):
+                            lhs = sum(w_ * x ** d for w_, x in zip(w2, xs2))
+                            rhs = (br[-1] ** (d + 1) - br[0] ** (d + 1)) / (d + 1)
+                            if lhs != rhs:
+                                chk.violation('density:model-polynomial-exactness', 'npts=%r general path: model weights integrate v^%d to %s, exact %s' % (npts, d, lhs, rhs),
+                                              {'kind': 'correspondence', 'theorem': 'c16_rho_exact_polynomial', 'degree': d}, no_input=True)
         # polynomials of degree <= spline degree lie in the (clamped) spline space: exact integrals
         a, b = info['vlims']
         v = info['eta3']
@@ -581,7 +644,7 @@ def run():
                 ok = len(nums) == 2 * len(mq) and all(F(nums[2 * k], nums[2 * k + 1]) == mq[k] for k in range(len(mq)))
             if not ok:
                 raise core.BrokenCheck('extracted model and vm_compute disagree on %r: %s vs %s' % (cases[i], v[:200], mod[i][:200]))
-    chk.assumptions += ['the vector I handed to the transposed solve holds the basis integrals (C09) - hypothesis of c16_rho_exact',
+    chk.assumptions += ['the stored value (t_{j+p+1} - t_j)/(p+1) is the integral of B_j (classical identity, cited in C09)',
                         'simulated MPI; compute_2d_process_grid overridden to reach every admissible grid',
                         'binary64 rounding is not modelled: float results are compared with the exact value of the same inputs under (nc+2) eps sum|q|(|g|+|e|)']
     return chk.finish(proof,
@@ -591,8 +654,11 @@ def run():
                            % (len(cases), n_alg, n_flt, len(shapes), len(grids)),
                       extra={'equilibrium_rows_checked': rows_checked, 'worst_float_error_in_eps_scale_units': round(worst, 3),
                              'quadrature_worst_fraction_of_bound': round(quad_rel, 4), 'coq_vm_compute_crosschecked': len(samp)},
-                      uncovered=['that BSplines.integrals holds the integrals of the basis functions (C09) and that the LAPACK / SuperLU transposed solve is exact: hypotheses of '
-                                 'c16_rho_exact, checked numerically in (c) under a conditioning-based bound',
+                      uncovered=['the classical identity that (t_{j+p+1} - t_j)/(p+1) is the integral of B_j (cited in C09); with the weights of the C09 model the density is proved to be sum_j I_j c_j for the '
+                                 'v-interpolant c (c16_rho_is_integral_of_interpolant) and the exact integral for polynomials of degree <= p on clamped general spaces (c16_rho_exact_polynomial); the '
+                                 'uniform-cubic path is proved for data constant in v only (c16_rho_const_cubic), higher degrees are checked numerically and with the exact model weights',
+                                 'that LAPACK / SuperLU realise the exact transposed solve of the model: the real coefficients are compared with the exact weights of the C09 model on the finder\'s own '
+                                 'v space under a conditioning-based bound',
                                  'binary64 rounding of the accumulation (bounded a posteriori, not proved)',
                                  'the tie of DensityFinder (numpy level) to the model is by spied arguments and read-back tables, not by a source translator'])
 
